@@ -89,6 +89,11 @@ func (v *visitor) VisitImplicitCondition(ctx *gen.ImplicitConditionContext) any 
 
 	asURN, _ := urns.Parse(value)
 
+	// only a value with a known scheme is a URN, anything else with a colon is just text
+	if scheme, _, _, _ := asURN.ToParts(); !urns.IsValidScheme(scheme) {
+		asURN = urns.NilURN
+	}
+
 	if v.env.RedactionPolicy() == envs.RedactionPolicyURNs {
 		num, err := strconv.Atoi(value)
 		if err == nil {
